@@ -127,6 +127,7 @@ def run_threads(run: core.Run):
     for n in counts + [counts[-1]]:  # the last count is run twice (fresh-process repeatability)
         env = dict(os.environ, NUMBA_NUM_THREADS=str(n), OMP_WAIT_POLICY="PASSIVE", VERIF_TIER_EFFECTIVE=run.tier)
         env.pop("OPENBLAS_NUM_THREADS", None) if n == counts[-1] else None
+        env.pop("NUMBA_THREADING_LAYER", None)  # the sweep runs numba's default threading layer
         procs.append((n, subprocess.Popen(
             [sys.executable, "-c", "import sys; sys.path.insert(0, %r); from vf.checks import c10_kernels as k; k.worker_main()" % str(core.ROOT)],
             env=env, stdout=subprocess.PIPE, stderr=subprocess.PIPE, text=True)))  # fmt: skip
